@@ -9,7 +9,7 @@
    (C13/C14) and appears below only as an explicit hypothesis. *)
 From Coq Require Import List ZArith NArith Bool.
 Require Import Mixin.Base.Res Mixin.Model.Membership Mixin.Model.Finality
-               Mixin.Proofs.Membership Mixin.Proofs.Finality.
+               Mixin.Proofs.Membership Mixin.Proofs.Finality Mixin.Proofs.MembershipPerm.
 Import ListNotations.
 Open Scope N_scope.
 
@@ -131,6 +131,17 @@ Proof.
   symmetry. apply (C09_tamper_mask _ _ _ sel' Hnd Hm Hm' S1 S2).
 Qed.
 Print Assumptions C09_tamper_rejected.
+
+(* The decision does not depend on the order in which the Go runtime iterates
+   the node map while the membership views are built: with or without the memo. *)
+Theorem C09_map_order_irrelevant : forall agg_verify iter recs genesis epoch mainnet ch s t,
+  is_iteration iter ->
+  verify_fresh agg_verify (load_node_with iter recs genesis epoch mainnet) ch s
+  = verify_fresh agg_verify (load_node recs genesis epoch mainnet) ch s /\
+  verify_finalization agg_verify (load_node_with iter recs genesis epoch mainnet) ch s t
+  = verify_finalization agg_verify (load_node recs genesis epoch mainnet) ch s t.
+Proof. intros. rewrite load_node_with_eq by assumption. split; reflexivity. Qed.
+Print Assumptions C09_map_order_irrelevant.
 
 (* ---- non-vacuity ------------------------------------------------------------------ *)
 Definition ex_epoch : N := 1700000000000000000.
